@@ -208,7 +208,10 @@ def canon_dtype(d, behaviour=False):
         except Exception:
             outs.append("E")
     n = d.bitlength
-    src = ("1011001110001111" * 8)[: (n if n is not None and n <= 128 else 20)]
+    # small magnitudes only: products with an int scale and with the numerically equal float scale are then the same
+    # number (for values beyond 2**53 they differ by rounding: the scale OBJECT of the first caller is served)
+    pat = "1011001110001111"
+    src = pat[:n] if n is not None and n <= 16 else ("0" * (n - 16) + pat if n is not None and n <= 160 else "0000" + pat)
     for probe in (src, "00100"):
         try:
             outs.append(canon(d.parse(Bits(bin=probe))))
@@ -423,12 +426,16 @@ _Z = None
 
 
 def _child_eval(req):
-    opts, items = req
-    _set_opts(opts)
+    """req: list of (opts, items), sorted by opts (lsb0 is the major key, so lsb0 is assigned at most once in this
+    process); every call on cleared caches."""
     out = []
-    for f, operand in items:
-        clear_all()
-        out.append(run_op(f, operand)[0])
+    for opts, items in req:
+        _set_opts(opts)
+        res = []
+        for f, operand in items:
+            clear_all()
+            res.append(run_op(f, operand)[0])
+        out.append(res)
     return out
 
 
@@ -446,7 +453,7 @@ def _zygote_loop(rfd, wfd):
                 os.close(pr)
                 data = pickle.dumps(_child_eval(req))
             except BaseException as e:       # noqa: BLE001
-                data = pickle.dumps(["child-failed " + repr(e)] * len(req[1]))
+                data = pickle.dumps([["child-failed " + repr(e)] * len(g[1]) for g in req])
             with os.fdopen(pw, "wb") as cw:
                 cw.write(data)
             os._exit(0)
@@ -493,15 +500,32 @@ def _start_zygote():
         _Z = None
 
 
-def fresh_eval(opts, items):
-    """Results of `items` in a never-used interpreter state with the options set once; None if no zygote."""
-    if _Z is None or not items:
-        return None if _Z is None else []
-    b = pickle.dumps((opts, items))
+def fresh_eval_groups(groups):
+    """groups: list of (opts, items). Results per group, evaluated in ONE never-used process that walks the option
+    states in sorted order; None if there is no zygote."""
+    if _Z is None:
+        return None
+    if not groups:
+        return []
+    b = pickle.dumps(sorted(groups, key=lambda g: g[0]))
     _Z[1].write(_struct.pack("<I", len(b)) + b)
     _Z[1].flush()
     n = _struct.unpack("<I", _Z[2].read(4))[0]
-    return pickle.loads(_Z[2].read(n))
+    res = pickle.loads(_Z[2].read(n))
+    order = sorted(range(len(groups)), key=lambda i: groups[i][0])
+    out = [None] * len(groups)
+    for pos, i in enumerate(order):
+        out[i] = res[pos]
+    return out
+
+
+def fresh_eval(opts, items):
+    """Results of `items` in a never-used interpreter state with the options set once; None if no zygote."""
+    if _Z is None:
+        return None
+    if not items:
+        return []
+    return fresh_eval_groups([(opts, items)])[0]
 
 
 # ---------------------------------------------------------------------------------------------------------------
@@ -606,25 +630,30 @@ def execute(line):
             if warm[i] is not None:
                 groups.setdefault(optat[i], []).append(i)
         have_fresh = _Z is not None
-        for o, idxs in groups.items():
-            # identical (op, operand) pairs are asked once
-            uniq, order = {}, []
-            for i in idxs:
-                key = ("|".join(ops[i]), operands[i])
-                if key not in uniq:
-                    uniq[key] = len(order); order.append((ops[i], operands[i]))
-            res = fresh_eval(o, order)
+        if have_fresh and groups:
+            glist, gmeta = [], []
+            for o, idxs in groups.items():
+                uniq, order = {}, []           # identical (op, operand) pairs are asked once
+                for i in idxs:
+                    key = ("|".join(ops[i]), operands[i])
+                    if key not in uniq:
+                        uniq[key] = len(order); order.append((ops[i], operands[i]))
+                glist.append((o, order)); gmeta.append((idxs, uniq))
+            res = fresh_eval_groups(glist)
             if res is None:
                 have_fresh = False
-                continue
-            for i in idxs:
-                fresh[i] = res[uniq[("|".join(ops[i]), operands[i])]]
+            else:
+                for (idxs, uniq), r in zip(gmeta, res):
+                    for i in idxs:
+                        fresh[i] = r[uniq[("|".join(ops[i]), operands[i])]]
         # ---- pristine sample: two call steps evaluated alone in a never-used process (catches state that survives
         #      every cache_clear: hand-made memo tables, values captured at first use)
         pristine = {}
         call_idx = [i for i in range(len(ops)) if warm[i] is not None]
         if have_fresh and call_idx:
-            pick = {call_idx[-1], call_idx[(len(line) * 7919 + len(call_idx)) % len(call_idx)]}
+            pick = {call_idx[(len(line) * 7919 + len(call_idx)) % len(call_idx)]}
+            if len(call_idx) > 100:
+                pick.add(call_idx[-1])
             for i in sorted(pick):
                 r = fresh_eval(optat[i], [(ops[i], operands[i])])
                 if r:
@@ -1223,30 +1252,60 @@ def fillers(n, tag):
     return ["S|Bits|-|0b1, uint:20=%d" % (i + 1000 * tag) for i in range(n)]
 
 
+def _join(segments):
+    """Concatenate segments into one history; `@k` in a segment is the index of the segment's k-th step."""
+    ops = []
+    for seg in segments:
+        base = len(ops)
+        for w in seg:
+            ops.append("|".join(str(base + int(f[1:])) if f[:1] == "@" and f[1:].isdigit() else f for f in w.split("|")))
+    return SEP.join(["C09", "hist"] + ops)
+
+
 def targeted(rng, tier):
-    """Short histories aimed at one mechanism each."""
+    """Histories aimed at one mechanism each (segments that use their own strings are chained into one history)."""
     out = []
     H = lambda ops: out.append(SEP.join(["C09", "hist"] + ops))
-    sens = [("l", "ue=3"), ("l", "se=-3"), ("l", "uie=7"), ("l", "sie=-7"), ("l", "0b1, ue=12"), ("m", "e4m3mxfp=1000"),
-            ("m", "e4m3mxfp=-1000"), ("m", "e5m2mxfp=1e9"), ("m", "e5m2mxfp=-inf"), ("m", "0xf, e4m3mxfp=inf"),
-            ("lm", "ue=3, e4m3mxfp=1000"), ("lm", "e5m2mxfp=1e6, sie=4")]
     flipof = {"l": ["lsb0"], "m": ["mxfp"], "lm": ["lsb0", "mxfp"]}
+    uid = [0]
+
+    def sens_texts():
+        """Option-reading strings, fresh ones on every call (so chained segments do not share cache entries)."""
+        uid[0] += 1
+        u = uid[0]
+        return [("l", "ue=%d" % (3 + u)), ("l", "se=-%d" % (3 + u)), ("l", "uie=%d" % (7 + u)), ("l", "sie=-%d" % (7 + u)),
+                ("l", "0b1, ue=%d" % (12 + u)), ("m", "e4m3mxfp=%d" % (1000 + u)), ("m", "e4m3mxfp=-%d" % (1000 + u)),
+                ("m", "e5m2mxfp=%d" % (100000 + u)), ("m", "uint:9=%d, e5m2mxfp=-inf" % (u % 500)), ("m", "0x%x, e4m3mxfp=inf" % u),
+                ("lm", "ue=%d, e4m3mxfp=1000" % (3 + u)), ("lm", "e5m2mxfp=1e6, sie=%d" % (4 + u))]
+    # 0. the two historical deviations, alone (shortest possible histories)
+    for dep, text in [("l", "ue=3"), ("l", "se=-3"), ("l", "uie=7"), ("l", "sie=-7"), ("m", "e4m3mxfp=1000"), ("m", "e5m2mxfp=1e9"),
+                      ("lm", "ue=3, e4m3mxfp=1000")]:
+        for opt in flipof[dep]:
+            for start in (0, 1):
+                s = "S|Bits|%s|%s" % (dep, text)
+                H(["O|%s|%d" % (opt, start), s, "O|%s|%d" % (opt, 1 - start), s, "O|%s|%d" % (opt, start), s])
     # 1. parse, flip, parse, flip back, parse — in both starting states, every class and route
-    for dep, text in sens:
-        for cls in CLASS_NAMES:
-            for route in ("", "!f", "!p", "!a"):
+    for cls in CLASS_NAMES:
+        for route in ["", "!f", "!p", "!a"] + E_ROUTES_ANY + (E_ROUTES_MUT if cls in MUTABLE else []):
+            segs = []
+            for dep, text in sens_texts():
                 for opt in flipof[dep]:
                     for start in (0, 1):
-                        s = "S|%s%s|%s|%s" % (cls, route, dep, text)
-                        H(["O|%s|%d" % (opt, start), s, "O|%s|%d" % (opt, 1 - start), s, "O|%s|%d" % (opt, start), s,
-                           "O|%s|%d" % (opt, 1 - start), s])
+                        s = "S|%s%s|%s|%s" % (cls, route, dep, text + (" " if start else "") + ("  " if opt == "mxfp" else ""))
+                        segs.append(["O|lsb0|0", "O|mxfp|0", "O|%s|%d" % (opt, start), s, "O|%s|%d" % (opt, 1 - start), s,
+                                     "O|%s|%d" % (opt, start), s, "O|%s|%d" % (opt, 1 - start), s])
+            out.append(_join(segs))
     # 1b. both options of an 'lm' string changed between parse and re-use
+    segs = []
     for cls in CLASS_NAMES:
-        s = "S|%s|lm|ue=5, e4m3mxfp=2000" % cls
         for a in ((0, 0), (0, 1)):
             for b in ((0, 0), (0, 1), (1, 0), (1, 1)):
-                H(["O|lsb0|%d" % a[0], "O|mxfp|%d" % a[1], s, "O|lsb0|%d" % b[0], "O|mxfp|%d" % b[1], s, "O|lsb0|0", s])
-    # 2. eviction boundary: the stale entry survives exactly maxsize-1 other keys; a hit refreshes it; capacity ± 1
+                uid[0] += 1
+                s = "S|%s|lm|ue=%d, e4m3mxfp=2000" % (cls, uid[0])
+                segs.append(["O|lsb0|%d" % a[0], "O|mxfp|%d" % a[1], s, "O|lsb0|%d" % b[0], "O|mxfp|%d" % b[1], s, "O|lsb0|0", s])
+    out.append(_join(segs))
+    # 2. eviction boundary: an entry survives exactly maxsize-1 other keys; a hit refreshes it; capacity ± 1.
+    #    (While a setter leaves stale entries behind, the model has to predict exactly which calls are served stale.)
     cap = dict(_GEN["sizes"]).get("str_to_bitstore", 256)
     for dep, text in (("m", "e4m3mxfp=1000"), ("l", "ue=3")):
         opt = flipof[dep][0]
@@ -1265,13 +1324,34 @@ def targeted(rng, tier):
                                                         "A|-|float16|%s" % J([(3.0).hex()])] + fillers(3, 2) + [s])
     # 3. a string first constructed in the mode where it raises is not cached
     H(["O|lsb0|1", "S|Bits|l|ue=9", "S|Bits|l|ue=9", "O|lsb0|0", "S|Bits|l|ue=9", "O|lsb0|1", "S|Bits|l|ue=9"])
-    # 4. Dtype creation: colliding scales, in every order; lengths; then behaviour
-    for tok, length in (("uint8", None), ("uint", 8), ("e4m3mxfp", None), ("float", 32), ("int:12", None), ("hex", 8)):
+    # 4. Dtype creation: colliding scales, in every order (each pair on its own length, so the pairs are independent)
+    for tok in ("uint", "int", "bits", "float", "hex", "e4m3mxfp"):
+        segs, n = [], 0
         for sa in SCALES[3:14]:
             for sb in SCALES[3:14]:
                 if sa != sb:
-                    H(["D|-|" + J([tok, length, sa, "dtype"]), "D|-|" + J([tok, length, sb, "dtype"]),
-                       "D|-|" + J([tok, length, None, "dtype"]), "D|-|" + J([tok, length, sa, "dtype"])])
+                    n += 1
+                    if tok == "float":
+                        t, length = "float", [16, 32, 64][n % 3]
+                    elif tok == "hex":
+                        t, length = "hex", 4 * n
+                    elif tok == "e4m3mxfp":
+                        t, length = ["e4m3mxfp", "e5m2mxfp", "e3m2mxfp", "e2m3mxfp", "e2m1mxfp", "mxint", "p4binary", "p3binary",
+                                     "bfloat", "bool"][n % 10], None
+                    else:
+                        t, length = tok, n + 1
+                    if length is not None and n % 2:
+                        t, length = "%s:%d" % (t, length), None
+                    segs.append(["D|-|" + J([t, length, sa, "dtype"]), "D|-|" + J([t, length, sb, "dtype"]),
+                                 "D|-|" + J([t, length, None, "dtype"]), "D|-|" + J([t, length, sa, "dtype"])])
+                    if tok in ("float", "e4m3mxfp") and n % 10 == 9:
+                        segs.append(["K|preprocess_tokens|-|" + J([["uint:%d" % k], {}]) for k in range(3)])
+        if tok in ("float", "e4m3mxfp"):
+            # few distinct keys: one history per 10 pairs, each starting cold
+            for i in range(0, len(segs), 11):
+                out.append(_join(segs[i:i + 11]))
+        else:
+            out.append(_join(segs))
     # 5. method dispatch after every sequence of lsb0 assignments of length <= 3
     attrs = battery_attrs()
     for seq in [[], [1], [0], [1, 0], [1, 1], [0, 1], [1, 0, 1], [1, 0, 0], [0, 1, 0], [1, 1, 0]]:
@@ -1307,18 +1387,20 @@ def targeted(rng, tier):
     # 8. mutation of earlier results, every construction / derivation route that converts the string once
     for cls in ("BitArray", "BitStream"):
         for route in ["", "!f", "!p", "!a"] + E_ROUTES_ANY + E_ROUTES_MUT:
+            segs = []
             for kind in MUT_KINDS:
-                for text in ("0xf0, uint:4=5", "0b0000111101"):
+                for tmpl in ("0xf0, uint:12=%d", "0b0000111101, 0x%x"):
+                    uid[0] += 1
+                    text = tmpl % (uid[0] % 4000)
                     s = "S|%s%s|-|%s" % (cls, route, text)
-                    H([s, "M|0|%s" % kind, s, "S|Bits|-|" + text, "M|2|%s" % kind, "B|Bits|_find|0|" + J([0, 4, "0101"]),
-                       "S|ConstBitStream|-|" + text, "S|%s!eadd|-|%s" % (cls, text), "M|7|%s" % kind, "S|Bits!f|-|" + text])
+                    segs.append([s, "M|@0|%s" % kind, s, "S|Bits|-|" + text, "M|@2|%s" % kind, "B|Bits|_find|@0|" + J([0, 4, "0101"]),
+                                 "S|ConstBitStream|-|" + text, "S|%s!eadd|-|%s" % (cls, text), "M|@7|%s" % kind, "S|Bits!f|-|" + text])
+            out.append(_join(segs))
     # 9. lists of format items: every item is its own tokenparser / preprocess_tokens key, and is used alone afterwards
     pairs = [("uint:8", [5], "hex:8", ["ab"]), ("uint:4, int:4", [3, -2], "bin:3", ["101"]), ("2*uint:3", [1, 2], "bool, pad:2", [True]),
-             ("ue", [3], "se, uint:5", [-2, 7]), (">hB", [1, 2], "float:32", [1.5]), ("uint:12=7", [], "bits:4", ["0b1010"]),
-             ("hex", ["abc"], "oct:6", ["17"])]
+             ("ue", [3], "se, uint:5", [-2, 7]), (">hB", [1, 2], "float:32", [1.5]), ("hex", ["abc"], "oct:6", ["17"]),
+             ("uint:12=7", [], "int:7", [-3])]
     for f1, v1, f2, v2 in pairs:
-        if f2 == "bits:4":
-            continue
         bits1 = "1011001110001111010100110000111101011100"
         H(["P|-|%s|%s|{}" % (J([f1, f2]), J(v1 + v2)), "P|-|%s|%s|{}" % (J(f1), J(v1)), "K|tokenparser|-|" + J([[f1], {}]),
            "P|-|%s|%s|{}" % (J([f1, f2]), J(v1 + v2)), "P|-|%s|%s|{}" % (J([f2, f1, f2]), J(v2 + v1 + v2)), "P|-|%s|%s|{}" % (J(f2), J(v2)),
